@@ -470,6 +470,9 @@ func evalC12(c *engine.Case) engine.Verdict {
 	if x.Defaults > 0 {
 		v.Class("default-options-on-func")
 	}
+	if sc.RawConverters {
+		v.Class("shared-raw-Converter-option")
+	}
 	v.Class(fmt.Sprintf("goroutines=%d", len(x.Ops)))
 	v.NonTrivial = len(x.Ops) >= 2 && shared
 	return v
@@ -515,6 +518,7 @@ func genC12(g engine.G) *engine.Case {
 		x.Defaults = g.Int(1, 3)
 	}
 	x.Yield = engine.Pick(g, []int{0, 1, 1, 20, 100})
+	sc.RawConverters = g.Pct(50)
 	c := &engine.Case{Sc: sc}
 	c.SetX(&x)
 	return c
